@@ -7,6 +7,7 @@ import Py65.Driver.Num
 import Py65.Driver.Obs
 import Py65.Driver.Mon
 import Py65.Driver.Asm
+import Py65.Driver.MonCmd
 
 namespace Py65.Driver
 open Py65
@@ -46,7 +47,7 @@ def handleBase (toks : List String) : Option String :=
   | "lbl" :: rest => some (runNum ("lbl" :: rest))
   | "fmt" :: rest => some (runNum ("fmt" :: rest))
   | "bg" :: [seed, w, addr] => some (toString (bg (parseInt! seed) (parseInt! w).toNat (parseInt! addr)))
-  | _ => none
+  | toks => runMonCmd toks      -- pre / shlex / regpairs / cmdline / repr / fmtdis / cyc / io  (C18, C19, C20)
 
 partial def loop (handle : String → String) (h : IO.FS.Stream) (out : IO.FS.Stream) : IO Unit := do
   let line ← h.getLine
